@@ -40,7 +40,8 @@ def danger_docs():
 
 def gen(ctx):
     cases = []
-    docs = danger_docs() + [d for d in G.structured_docs(qgen.NAMES) if isinstance(d, (dict, list))]
+    docs = [{"id": [1, {"id": 2}], "~id": [2, {"x": 1}], "#id": {"k": 3, "#k": [4]}, "k": {"#k": 1, "k": 2, "~k": {"k": 0}}, "~": {"": 1, "~": 2}, "#": {"#": [0]}},
+            [{"a": 1, "~a": 2, "#a": 3}, {"~0": 1, "0": 2, "#0": 3, "~1": 4, "1": 5}]] + danger_docs() + [d for d in G.structured_docs(qgen.NAMES) if isinstance(d, (dict, list))]
     for _ in range(40 if ctx.tier == "quick" else 500):
         d = G.random_doc(ctx.rng, 4, keys=qgen.NAMES + DANGER, width=4)
         if isinstance(d, (dict, list)):
